@@ -787,7 +787,7 @@ def c18(chk):
     reps = 6 if not chk.thorough() else 40
     cases = []
     for order in (3, 5, 7):
-        for n in ([2, 3, 5, 8] if not chk.thorough() else [2, 3, 4, 5, 8, 12, 20]):
+        for n in ([2, 3, 5, 8, 33] if not chk.thorough() else [2, 3, 4, 5, 8, 12, 20, 28, 33, 40]):
             for _ in range(reps):
                 ratio = rng.choice([1, 4, 10, 20, 30, 50, 75, 100])
                 lo = 10 ** rng.uniform(-3, 1 - math.log10(ratio))
@@ -893,7 +893,7 @@ def c10_splines(chk):
                     prev = c
                     c.evals = [(c.t0 + rng.uniform(-0.5, sum(c.h) + 0.5), rng.randrange(0, NC[order] + 1)) for _ in range(3)]
                     variants = []
-                    for slot_, qo in ((slot, rng.randrange(3)), (-1, 0), (-1, 1)):
+                    for slot_, qo in ((slot, rng.randrange(4) + 10 * rng.choice([0, 0, 1, 2, 3])), (-1, 0), (-1, 1)):
                         v = copy.deepcopy(c); v.slot = slot_; v.qorder = qo
                         variants.append(v)
                     for v in variants:
